@@ -232,9 +232,20 @@ def run_case(case):
             case["spec"].get("k") == "RQS" or (case["spec"].get("k") == "Invert" and case["spec"]["c"].get("k") == "RQS")):
         # splines: the unselected branch of the interval test depends on the knot parameters, so several trained states (levels 0-3 x 3 parameter patterns) are tried
         states = [(lv, sd) for lv in (0, 1, 2, 3) for sd in range(3 if lv else 1)]
+    if "spec" in case and case["spec"].get("k") == "MAF" and case["spec"].get("d") == 0 and case["spec"].get("dim") == 3 and case["spec"].get("tr", "affine") == "affine":
+        # a linear conditioner in a fixed, seed-independent parameter state (the one of finding 8l): at |y| = 1e4 the transformer
+        # parameters of the elements a sequential inverse has not reached yet are extreme, those at the inverse image are moderate
+        states = states + [("finding-8l", 0)]
     for level, salt_ in states:
         try:
-            dist = builder(level) if salt_ == 0 else builder_salt(level, salt_)
+            if level == "finding-8l":
+                d0 = builder(0)
+                W_ = jnp.asarray([[0.0, 0, 0], [0, 0, 0], [-0.394, 0, 0], [-0.405, 0, 0], [0.537, -0.567, 0], [-0.107, 0.296, 0]], d0.bijection.masked_autoregressive_mlp.layers[0].bias.dtype)
+                b_ = jnp.asarray([0.266, 0.369, -0.419, -0.08, 0.218, 0.186], W_.dtype)
+                dist = eqx.tree_at(lambda m: (m.bijection.masked_autoregressive_mlp.layers[0].weight.if_true, m.bijection.masked_autoregressive_mlp.layers[0].bias), d0, (W_, b_))
+                level = 0
+            else:
+                dist = builder(level) if salt_ == 0 else builder_salt(level, salt_)
         except Exception as e:
             add(f"construct|{type(e).__name__}", f"{case['id']} level {level}: {type(e).__name__}: {str(e)[:200]}", {})
             continue
